@@ -237,10 +237,10 @@ type legRun struct {
 	connMu sync.Mutex
 	conn   *clientConn
 
-	nNotDelivered, nVerified int64
-	summary                  []caseSummary
-	issued                   map[string]bool // op ids of every call issued in the current batch
-	sumMu                    sync.Mutex
+	nNotDelivered, nVerified, nUnexpected int64
+	summary                               []caseSummary
+	issued                                map[string]bool // op ids of every call issued in the current batch
+	sumMu                                 sync.Mutex
 }
 
 // caseSummary is what is kept of a case for the wire-tap pass at the end.
@@ -563,6 +563,9 @@ func (lr *legRun) oneCallOn(cc *clientConn, cs *callCase) {
 	case cs.Outcome == "ok" && cs.callErr != nil,
 		cs.Outcome != "ok" && cs.callErr == nil:
 		m.run.Inconclusive(fmt.Sprintf("%s case %d (%s, outcome %s): unexpected call result %v", lr.name, cs.Index, cs.Method, cs.Outcome, cs.callErr))
+		if atomic.AddInt64(&lr.nUnexpected, 1) >= 4 {
+			atomic.StoreInt32(&lr.abort, 1) // something is broken below the property: stop this leg
+		}
 		return
 	}
 	cs.completed = true
